@@ -6,25 +6,32 @@
 #ifndef VT_CASES_H
 #define VT_CASES_H
 #include <bspline/Core.h>
+// The scalar type of the cases: double (drv_cases.cpp) or the archetype vt::Arch (drv_cases_arch.cpp; no numerical
+// quadrature there - boost's Gauss rules need a built-in or multiprecision type).
+#ifndef VT_CASE_T
+#define VT_CASE_T double
+#endif
+#ifndef VT_CASE_NO_QUAD
 #include <bspline/integration/numerical.h>
+#endif
 
 // every member of the value classes is needed by the evaluator (constructors, observers)
-template class bspline::support::Grid<double>;
-template class bspline::support::Support<double>;
-template class bspline::Spline<double, 0>;
-template class bspline::Spline<double, 1>;
-template class bspline::Spline<double, 2>;
-template class bspline::Spline<double, 3>;
-template class bspline::Spline<double, 4>;
-template class bspline::Spline<double, 5>;
-template class bspline::Spline<double, 6>;
-template class bspline::Spline<double, 7>;
+template class bspline::support::Grid<VT_CASE_T>;
+template class bspline::support::Support<VT_CASE_T>;
+template class bspline::Spline<VT_CASE_T, 0>;
+template class bspline::Spline<VT_CASE_T, 1>;
+template class bspline::Spline<VT_CASE_T, 2>;
+template class bspline::Spline<VT_CASE_T, 3>;
+template class bspline::Spline<VT_CASE_T, 4>;
+template class bspline::Spline<VT_CASE_T, 5>;
+template class bspline::Spline<VT_CASE_T, 6>;
+template class bspline::Spline<VT_CASE_T, 7>;
 
 namespace vt_case {
 using namespace bspline;
 using namespace bspline::operators;
 using namespace bspline::integration;
-using D = double;
+using D = VT_CASE_T;
 template <size_t A> using S = Spline<D, A>;
 
 // ---- primitive operators -------------------------------------------------------------------
@@ -87,19 +94,21 @@ template <size_t A> D lf_x1(const S<A> &a) { return LinearForm{X<1>{}}(a); }
 template <size_t A> D lf_x1d1(const S<A> &a) { return LinearForm{X<1>{} * Dx<1>{}}.evaluate(a); }
 template <size_t A> D lf_d1(const S<A> &a) { return LinearForm{Dx<1>{}}(a); }
 template <size_t A> D lf_fac(const S<A> &a, const S<1> &v) { return LinearForm{SplineOperator{v}}(a); }
+#ifndef VT_CASE_NO_QUAD
 template <size_t A, size_t B> D quad2(const S<A> &a, const S<B> &b) {
   return integrate<2>([](const D &x) { return x; }, a, b);
 }
 template <size_t A, size_t B> D quad5(const S<A> &a, const S<B> &b) {
   return integrate<5>([](const D &x) { return x * x; }, a, b);
 }
+#endif
 
 template <size_t A>
 void inst1() {
-  S<A> a{bspline::support::Grid<D>{0.0, 1.0}};
+  S<A> a{bspline::support::Grid<D>{static_cast<D>(0), static_cast<D>(1)}};
   S<1> v{a.getSupport().getGrid()};
   S<0> v0{a.getSupport().getGrid()};
-  const D c = 2;
+  const D c = static_cast<D>(2);
   (void)op_id(a); (void)op_x0(a); (void)op_x1(a); (void)op_x2(a); (void)op_x3(a);
   (void)op_d0(a); (void)op_d1(a); (void)op_d2(a); (void)op_d3(a); (void)op_d4(a);
   (void)op_x1d1(a); (void)op_d1x1(a); (void)op_comm(a); (void)op_sum(a); (void)op_sum2(a);
@@ -112,12 +121,14 @@ void inst1() {
 }
 template <size_t A, size_t B>
 void inst2() {
-  S<A> a{bspline::support::Grid<D>{0.0, 1.0}};
+  S<A> a{bspline::support::Grid<D>{static_cast<D>(0), static_cast<D>(1)}};
   S<B> b{a.getSupport().getGrid()};
   S<1> v{a.getSupport().getGrid()};
-  (void)bf_aff(a, b, 2.0, 3.0);
+  (void)bf_aff(a, b, static_cast<D>(2), static_cast<D>(3));
   (void)bf_id(a, b); (void)bf_x1d1(a, b); (void)bf_d1(a, b); (void)bf_x2(a, b); (void)bf_fac(a, b, v);
+#ifndef VT_CASE_NO_QUAD
   (void)quad2(a, b); (void)quad5(a, b);
+#endif
 }
 template void inst1<0>();
 template void inst1<1>();
